@@ -38,11 +38,25 @@ BUDGET_S = {'quick': 200, 'thorough': 2400}
 
 
 class TaskRef:
-    def __init__(self, tid, owner, spec):
+    def __init__(self, tid, owner, spec, rd=True):
         self.tid, self.owner, self.spec = tid, owner, spec
+        self.rd = rd              # request_data: result carries the pass data
         self.state = 'LIVE'       # LIVE / FETCHED / CANCELLED
         self.raises = P.first_error(spec)
         self.was_done = False
+
+
+def result_mismatch(ref, v):
+    """None if ``v`` is a right result of ``ref``'s compilation."""
+    if ref.rd:
+        return P.value_matches(P.expected(ref.spec), v[1]['res'])
+    # without request_data the result is the output circuit alone; the
+    # program pass leaves the 1-qudit input circuit unchanged (no operations)
+    from bqskit.ir.circuit import Circuit
+    if not isinstance(v, Circuit) or v.num_qudits != 1 or \
+            v.num_operations != 0:
+        return f'circuit-only result is {str(v)[:80]}'
+    return None
 
 
 def chain_text(e: BaseException) -> str:
@@ -151,13 +165,16 @@ def check(case) -> Outcome:
                 comp = comps[c]
                 if op == 'submit':
                     spec = sc.normalise(step['prog'], [len(tasks) * 100])
-                    task = make_root_task(spec)
+                    rd = bool(step.get('rd', True))
+                    task = make_root_task(spec, request_data=rd)
                     if P.has_kind(spec, ('log',)):
                         task.logging_level = logging.WARNING
                     ok, _ = client_call(
                         c, 'submit', lambda: comp._send(M.SUBMIT, task))
                     if ok:
-                        tasks.append(TaskRef(task.task_id, c, spec))
+                        tasks.append(TaskRef(task.task_id, c, spec, rd))
+                        if not rd:
+                            out.label('submit:circuit-only-result')
                         if tasks[-1].raises:
                             nontrivial[0] = True
                     continue
@@ -181,8 +198,14 @@ def check(case) -> Outcome:
                     nontrivial[0] = True
                 out.label(f'{op}:{kind}:{ref.state if ref else "-"}')
                 if op == 'status':
+                    quiet = sim.quiescent()
                     ok, v = client_call(c, 'status', lambda: comp.status(tid))
                     if ok:
+                        if live_own and quiet and not ref.raises and \
+                                v != CS.DONE:
+                            # nothing is running or in flight any more: the
+                            # result is at the server
+                            out.fail('status_not_done_at_quiescence', f'{v}')
                         if live_own:
                             if v not in (CS.RUNNING, CS.DONE):
                                 out.fail('status_live_task', f'{v}')
@@ -208,8 +231,7 @@ def check(case) -> Outcome:
                             out.fail('raising_task_returned_value',
                                      str(v)[:200])
                         else:
-                            d = P.value_matches(P.expected(ref.spec),
-                                                v[1]['res'])
+                            d = result_mismatch(ref, v)
                             if d is not None:
                                 out.fail('wrong_value', d)
                             ref.state = 'FETCHED'
@@ -226,17 +248,27 @@ def check(case) -> Outcome:
                         f'{ref.state if ref else "-"}')
                     return out
             # ---- epilogue: every live task of every live client completes
+            if case.get('probe'):
+                sim.drain()
             for t in tasks:
                 if not alive[t.owner] or t.state != 'LIVE':
                     continue
                 comp = comps[t.owner]
+                if case.get('probe') and not t.raises:
+                    ok, v = client_call(t.owner, 'final_status',
+                                        lambda: comp.status(t.tid))
+                    if ok and v != CS.DONE:
+                        out.fail('status_not_done_at_quiescence',
+                                 f'{v} (epilogue)')
+                    if not alive[t.owner]:
+                        continue
                 ok, v = client_call(t.owner, 'final_result',
                                     lambda: comp.result(t.tid))
                 if ok:
                     if t.raises:
                         out.fail('raising_task_returned_value', str(v)[:200])
                     else:
-                        d = P.value_matches(P.expected(t.spec), v[1]['res'])
+                        d = result_mismatch(t, v)
                         if d is not None:
                             out.fail('wrong_value', d)
                     t.state = 'FETCHED'
@@ -274,8 +306,9 @@ def cases(draw, quick=True):
     step = st.one_of(
         st.builds(lambda c, p: {'op': 'submit', 'c': c, 'prog': p},
                   st.integers(0, 2), st.one_of(prog_ok, prog_ok, prog)),
-        st.builds(lambda c, p: {'op': 'submit', 'c': c, 'prog': p},
-                  st.integers(0, 2), prog_ok),
+        st.builds(lambda c, p, rd: {'op': 'submit', 'c': c, 'prog': p,
+                                    'rd': rd},
+                  st.integers(0, 2), prog_ok, st.booleans()),
         st.builds(lambda c, t: {'op': 'status', 'c': c, 't': t},
                   st.integers(0, 2), st.integers(0, 20)),
         st.builds(lambda c, t: {'op': 'result', 'c': c, 't': t},
@@ -294,6 +327,7 @@ def cases(draw, quick=True):
                                         'eager_recv'])),
         'steps': draw(st.lists(step, min_size=2,
                                max_size=14 if quick else 25)),
+        'probe': draw(st.booleans()),
     }
 
 
